@@ -638,6 +638,15 @@ pub fn construct<Q: Queue>(case: &Case, fails: &mut Vec<RawFail>) -> (Q, Model) 
             }
         }
     };
+    let mut q = q;
+    if case.pad > 0 {
+        let n = case.pad as usize;
+        let pairs: Vec<(u32, u32, i64)> = (0..n).map(|i| (2_000_000 + i as u32, 0, ((i as u64).wrapping_mul(0x9E37_79B9_7F4A_7C15) >> 44) as i64 % (2 * n as i64 + 1) + 1)).collect();
+        for &(id, t, p) in pairs.iter() {
+            model.set(id, t, p);
+        }
+        q.extend_with(hinted(&pairs, Hint::Exact));
+    }
     (q, model)
 }
 
